@@ -104,6 +104,38 @@ def noStealB (K : Calc R S) : List R → List (Ctl R S) → Bool
     (old.all fun c => !(K.sr c.rule r && !K.eq c.rule r)
         || rs.all fun r' => !K.eq c.rule r' && !K.eq c.rule (K.norm r')) && noStealB K rs old
 
+/-- the exact version: follow the builder (`reuseIdx` on the shrinking candidate list) and ask, each time a rule takes the
+    statistic of an old controller, whether that controller's rule (as is or normalised) still occurs later in the new
+    list.  `noStealS = false` iff a controller is actually stolen; `noStealB = true` implies `noStealS = true`. -/
+def noStealS (K : Calc R S) : List R → List (Ctl R S) → Bool
+  | [], _ => true
+  | r :: rs, old =>
+    match reuseIdx K r old 0 none with
+    | (some i, _) => noStealS K rs (old.eraseIdx i)
+    | (none, some j) =>
+      match old[j]? with
+      | some c => (rs.all fun r' => !K.eq c.rule r' && !K.eq c.rule (K.norm r')) && noStealS K rs (old.eraseIdx j)
+      | none => noStealS K rs old
+    | (none, none) => noStealS K rs old
+
+/-- The classifier of `reuse-steals-controller`, following the real builder step by step (it is `noStealS K` when
+    `canon = id`): whenever a rule takes the statistic of an old controller, that controller must not be wanted by a
+    later rule, and if the rule has a controller of its own (an old one equal to it up to `canon`: constructor
+    normalisation, decision-neutral fields) it must be exactly that one. -/
+def stealSim {R S} (K : Calc R S) (canon : R → R) : List R → List (Ctl R S) → Bool
+  | [], _ => true
+  | r :: rs, old =>
+    let eq' (o n : R) : Bool := K.eq o n || K.eq (canon o) (canon n)
+    match reuseIdx K r old 0 none with
+    | (some i, _) => stealSim K canon rs (old.eraseIdx i)
+    | (none, some j) =>
+      match old[j]? with
+      | some c =>
+        let own := old.findIdx? fun c' => eq' c'.rule r
+        (own.isNone || own == some j) && (rs.all fun r' => !eq' c.rule r') && stealSim K canon rs (old.eraseIdx j)
+      | none => stealSim K canon rs old
+    | (none, none) => stealSim K canon rs old
+
 /-! ## circuit breaker (`core/circuitbreaker/rule.go`) -/
 
 structure CbRule where
@@ -404,11 +436,17 @@ def HotRule.valid (r : HotRule) : Bool := !(r.mtype == 1 && r.dur == 0)
 /-- `newBaseTrafficShapingControllerWithMetric` replaces a nil `SpecificItems` by an empty map in the rule object -/
 def HotRule.norm (r : HotRule) : HotRule := if r.items = 0 then { r with items := 1 } else r
 
+/-- fields that do not influence a rule's decisions: a hotspot concurrency rule never looks at `BurstCount` /
+    `MaxQueueingTimeMs`, although `Equals` compares them — a rule modified only there must behave as if unchanged,
+    through the stat-reuse path ("a modified rule whose statistic parameters are unchanged keeps its statistics") -/
+def HotRule.neutral (r : HotRule) : HotRule := if r.mtype = 0 then { r with burst := 0, maxQ := 0 } else r
+
 /-- `ParamsMetric` (QPS): per-value last-fill time and remaining tokens.  All mutable state of a hotspot controller
     lives here, so a stat-reusing rebuild keeps every counter. -/
 structure HotSt where
   times : List (Nat × Nat) := []
   tokens : List (Nat × Nat) := []
+  conc : List (Nat × Int) := []       -- ConcurrencyCounter: per-value calls in flight (a cell exists once the value was seen)
 deriving Repr
 
 def hotCalc : Calc HotRule HotSt where
@@ -460,8 +498,28 @@ def hotThrottleOne (now : Nat) (arg : Nat) (c : Ctl HotRule HotSt) : Verdict × 
       (.wait ((expected - now) * 1000000), { c with st := { c.st with times := kvSet c.st.times arg expected } })
     else (.block, c)
 
+def kvGetI (xs : List (Nat × Int)) (k : Nat) : Option Int := (xs.find? (·.1 == k)).map (·.2)
+def kvSetI (xs : List (Nat × Int)) (k : Nat) (v : Int) : List (Nat × Int) := (k, v) :: xs.filter (·.1 != k)
+
+/-- `performCheckingForConcurrencyMetric` (as repaired: the first request of a value is compared too): the value's cell
+    is created if absent; admitted iff in-flight + 1 ≤ the value's own threshold, else the general one -/
+def hotConcOne (arg : Nat) (c : Ctl HotRule HotSt) : Verdict × Ctl HotRule HotSt :=
+  let limit : Int := if c.rule.items = 2 && c.rule.sval = arg then c.rule.sthr else c.rule.thr
+  match kvGetI c.st.conc arg with
+  | some v => (if v + 1 ≤ limit then .pass else .block, c)
+  | none => (if 1 ≤ limit then .pass else .block, { c with st := { c.st with conc := kvSetI c.st.conc arg 0 } })
+
+/-- `ConcurrencyStatSlot.OnEntryPassed` (+1) / `OnCompleted` (−1) on one controller: only an existing cell moves -/
+def hotConcAdd (d : Int) (arg : Nat) (c : Ctl HotRule HotSt) : Ctl HotRule HotSt :=
+  if c.rule.mtype = 0 && arg != 0 then
+    match kvGetI c.st.conc arg with
+    | some v => { c with st := { c.st with conc := kvSetI c.st.conc arg (v + d) } }
+    | none => c
+  else c
+
 def hotCheckOne (now : Nat) (arg : Nat) (c : Ctl HotRule HotSt) : Verdict × Ctl HotRule HotSt :=
-  if c.rule.cb = 1 then hotThrottleOne now arg c
+  if c.rule.mtype = 0 then hotConcOne arg c
+  else if c.rule.cb = 1 then hotThrottleOne now arg c
   else match hotRejectOne now arg c with
     | (true, c') => (.pass, c')
     | (false, c') => (.block, c')
